@@ -38,6 +38,7 @@ type wpkt struct {
 	Seq     string
 	SID     string
 	Data    string
+	To      string
 }
 
 func coqOps(ops []opJ) string {
@@ -69,7 +70,7 @@ func dataPackets(log []wstanza, sid string) (pk []wpkt, closeAt int) {
 	closeAt = -1
 	for _, w := range log {
 		if w.Child == "data" && w.SID == sid && (w.Type == "set" || w.Name == "message") {
-			pk = append(pk, wpkt{Carrier: w.Name, Seq: w.Seq, SID: w.SID, Data: w.Data})
+			pk = append(pk, wpkt{Carrier: w.Name, Seq: w.Seq, SID: w.SID, Data: w.Data, To: w.To})
 		}
 		if w.Child == "close" && w.SID == sid && closeAt < 0 {
 			closeAt = len(pk)
@@ -226,6 +227,11 @@ func (x *runner) runSender(c senderCase, origin string) bool {
 		}
 		if p.Carrier != carrier {
 			x.res.Fail("C15/send/wrong-carrier", fmt.Sprintf("packet %d is carried by <%s/>, negotiated %s", i, p.Carrier, carrier), k)
+			bad = true
+			break
+		}
+		if p.To != remoteAddr {
+			x.res.Fail("C15/send/wrong-addressee", fmt.Sprintf("packet %d is addressed to %q, the peer of the stream is %s", i, p.To, remoteAddr), k)
 			bad = true
 			break
 		}
